@@ -1067,6 +1067,92 @@ def rule_contelse(ctx, sig, body, arg):
     return sig, body
 
 
+def _match_open(ct, j):
+    """ct[j] is a closing bracket; index of its opening bracket"""
+    depth = 0
+    while j >= 0:
+        if ct[j].text in (')', ']', '}'):
+            depth += 1
+        elif ct[j].text in ('(', '[', '{'):
+            depth -= 1
+            if depth == 0:
+                return j
+        j -= 1
+    raise RuleError('unbalanced brackets')
+
+
+def _receiver_start(ct, dot_i):
+    """ct[dot_i] is the `.` of a method call; index of the first token of the receiver expression (a postfix chain)"""
+    j = dot_i - 1
+    while True:
+        t = ct[j]
+        if t.text in (')', ']'):
+            j = _match_open(ct, j)
+            # a call / index: the callee path precedes; a parenthesised expression: stop here
+            if j - 1 >= 0 and (ct[j - 1].kind in ('ident',) or ct[j - 1].text in (')', ']', '?')):
+                j -= 1
+                continue
+            return j
+        if t.text == '?':
+            j -= 1
+            continue
+        if t.kind in ('ident', 'num', 'number', 'int') or t.text == 'self':
+            if j - 1 >= 0 and ct[j - 1].text in ('.', '::'):
+                j -= 2
+                continue
+            return j
+        raise RuleError('cannot delimit the receiver of the method call')
+
+
+def rule_optclosure(ctx, sig, body, arg):
+    """R-optclosure (applied to every verified function when its pattern occurs): Option combinators with a closure LITERAL are replaced
+    by their std definitions with the closure body in place (the closure is called exactly once, on the matched value):
+      X.is_some_and(|P| E)   ->  (match X { Some(P) => E, None => false })
+      X.is_none_or(|P| E)    ->  (match X { Some(P) => E, None => true })
+      X.map_or(D, |P| E)     ->  (match X { Some(P) => E, None => D })
+    (closures without `move`, `return`, `?` and without a block body with statements other than a tail expression are accepted).
+    Verus does not infer the specification of a closure, so the call form is out of its reach, the match form is not."""
+    n = 0
+    while True:
+        toks = tokenize(body)
+        ct = code_tokens(toks)
+        hit = None
+        for i, t in enumerate(ct):
+            if t.kind == 'ident' and t.text in ('is_some_and', 'is_none_or', 'map_or') and i >= 1 and ct[i - 1].text == '.' and ct[i + 1].text == '(':
+                close = match_close(ct, i + 1)
+                inner = body[ct[i + 1].end:ct[close].pos]
+                args = _split_top_commas(inner)
+                want = 2 if t.text == 'map_or' else 1
+                if len(args) != want:
+                    continue
+                cl = args[-1].strip()
+                m = re.match(r'^\|([^|]*)\|\s*(.*)$', cl, re.S)
+                if not m:
+                    continue
+                pat, expr = m.group(1).strip(), m.group(2).strip()
+                et = [x.text for x in code_tokens(tokenize(expr))]
+                if 'return' in et or '?' in et or 'move' in et or ':' in pat:
+                    continue
+                try:
+                    r0 = _receiver_start(ct, i - 1)
+                except RuleError:
+                    continue
+                hit = (ct[r0].pos, ct[i - 1].pos, ct[close].end, t.text, pat, expr, args[0].strip() if want == 2 else None)
+                break
+        if not hit:
+            break
+        start, dot, end, meth, pat, expr, dflt = hit
+        recv = body[start:dot].rstrip()
+        none = {'is_some_and': 'false', 'is_none_or': 'true', 'map_or': dflt}[meth]
+        new = f'(match {recv} {{ Some({pat}) => {{ {expr} }}, None => {{ {none} }} }})'
+        ctx.note('R-optclosure', body[start:end], new)
+        body = body[:start] + new + body[end:]
+        n += 1
+    if n == 0:
+        raise RuleError('no Option combinator with a closure literal')
+    return sig, body
+
+
 def rule_mapcollect2(ctx, sig, body, arg):
     """@rule mapcollect2 <ElemType>: `let V = X .into_iter() .map(F) .collect::<Vec<_>>();` (F a function path, X a Vec of Copy items)
     -> `let mc__src = X; let mut V: Vec<ElemType> = Vec::new(); for mc__e in mc__src.iter() { V.push(F(*mc__e)); }`
